@@ -11,7 +11,7 @@ tvars == <<tid, l, obs, bad>>
 T == Traces[tid]
 
 EvOf(e) == [k |-> e.k, file |-> e.file, dev |-> e.dev, ok |-> e.ok, pin |-> e.pin, op |-> e.op,
-            outcome |-> e.outcome, force |-> e.force]
+            outcome |-> e.outcome, force |-> e.force, mem |-> e.mem]
 
 TInit == /\ tid \in 1..Len(Traces) /\ l = 1 /\ bad = ""
          /\ obs = IF Traces[tid].kind = "life" THEN InitObs(Traces[tid].file0, Traces[tid].dev0)
